@@ -87,7 +87,10 @@ static const std::string& bz_boundary_payload(int d = 0) {
 
 static size_t part_size(Src& s) {
     static const size_t fixed[] = {0, 1, 100, 10239, 10240, 10241, 20480, 4999, 5000, 5001};
-    switch (s.weighted({4, 3, 3, 2})) {
+    // "--parts small": the quick run of the build with the real 1 MiB pieces stays with small payloads (one read call per stream, which
+    // is what libbz2's and zlib's end-of-file bookkeeping looks different for); sizes around the piece size are the thorough tier's job
+    static const bool small_only = vp::extra("parts") == "small";
+    switch (s.weighted({4, small_only ? 0U : 3U, 3, small_only ? 0U : 2U})) {
         case 0: return fixed[s.draw(sizeof(fixed) / sizeof(fixed[0]))];
         case 1: {
             size_t k = 1 + s.draw(3);
@@ -170,14 +173,18 @@ static void multi_stream(Src& s) {
     const auto comp = s.boolean() ? osmium::io::file_compression::gzip : osmium::io::file_compression::bzip2;
     const int from_fd = static_cast<int>(s.weighted({2, 2, 1}));
     size_t k = 1 + s.draw(6);
+    // one bzip2 case in eight: one or two streams that all end on a read-ahead block, so that the file ends there as well (the last
+    // fread() of libbz2 returns a full block and has not seen the end of the file yet)
+    const bool aligned_file = comp == osmium::io::file_compression::bzip2 && s.chance(1, 8);
+    if (aligned_file) k = 1 + s.draw(2);
     std::vector<Stream> streams;
     std::string desc = std::string{cname(comp)} + SRC_NAME[from_fd] + " streams:";
     bool used_boundary = false;
     for (size_t i = 0; i < k; ++i) {
         Stream st;
-        if (comp == osmium::io::file_compression::bzip2 && s.chance(1, 6)) {
+        if (aligned_file || (comp == osmium::io::file_compression::bzip2 && s.chance(1, 6))) {
             static const int ds[] = {0, 0, 1, -1, 2, -2};
-            st.plain = bz_boundary_payload(ds[s.draw(6)]);
+            st.plain = bz_boundary_payload(aligned_file ? 0 : ds[s.draw(6)]);
             used_boundary = true;
             st.comp = bz_compress(st.plain, 9);
             desc += " [bz2 stream of exactly " + std::to_string(st.comp.size()) + " compressed bytes]";
@@ -218,6 +225,7 @@ static void multi_stream(Src& s) {
         }
     }
     if (vp::want_desc()) vp::describe(desc);
+    if (comp == osmium::io::file_compression::bzip2 && !file.empty() && file.size() % 5000 == 0) vp::count(std::string{"bz2_file_size_multiple_of_5000"} + SRC_NAME[from_fd]);
 
     // --- valid file
     {
